@@ -253,9 +253,18 @@ func c14Exec(c *Ctx, op string) string {
 				return "bad-op"
 			}
 			t := utils.GetRouteTableID(i)
-			j := c.R.Intn(4096)
-			if (utils.GetRouteTableID(j) == t) != (i == j) || t <= 255 {
-				c.Violate("C14/table", fmt.Sprintf("route table id not unique/reserved: f(%d)=%d f(%d)=%d", i, t, j, utils.GetRouteTableID(j)), op)
+			// against a random other index and against the neighbours (a collision made by a special case is local)
+			js := []int{c.R.Intn(4096)}
+			for d := 1; d <= 8; d++ {
+				js = append(js, i+d)
+				if i-d >= 0 {
+					js = append(js, i-d)
+				}
+			}
+			for _, j := range js {
+				if (utils.GetRouteTableID(j) == t) != (i == j) || t <= 255 {
+					c.Violate("C14/table", fmt.Sprintf("route table id not unique/reserved: f(%d)=%d f(%d)=%d", i, t, j, utils.GetRouteTableID(j)), op)
+				}
 			}
 			return fmt.Sprint(t)
 		case "net.veth":
@@ -356,6 +365,12 @@ func c14Run(c *Ctx) {
 			c.One(line, c14Exec(c, line), n < 127)
 			c.Count("net.gw6")
 		}
+	}
+	// interface indexes are small integers: every one up to 4095 (65535 in the thorough tier), plus random large ones
+	for idx := 0; idx < c.Scale(4096, 65536); idx++ {
+		line := fmt.Sprintf("net.table %d", idx)
+		c.One(line, c14Exec(c, line), idx > 0)
+		c.Count("net.table")
 	}
 	for i := 0; i < c.Scale(200, 4000); i++ {
 		idx := r.Intn(1 << uint(1+r.Intn(20)))
